@@ -158,6 +158,18 @@ pub fn gen_dec(rng: &mut Rng, count: u64, tier: &str) -> Vec<String> {
             push(&mut out, &b);
         }
     }
+    // (b'') file names that begin with separators (whatever a decoder normalises must stay normalised), every request kind
+    for op in [1u8, 2] {
+        for name in [&b"//a"[..], b"\\\\a", b"/a", b"\\a", b"///x/y", b"/\\/a", b"//", b"/", b"a//b", b"./a", b"/./a"] {
+            for tail in [&b"octet\0"[..], b"octet\0blksize\0512\0", b"\0"] {
+                let mut b = vec![0u8, op];
+                b.extend_from_slice(name);
+                b.push(0);
+                b.extend_from_slice(tail);
+                push(&mut out, &b);
+            }
+        }
+    }
     // (c) short buffers
     push(&mut out, &[]);
     for x in 0u16..256 {
@@ -193,6 +205,12 @@ pub fn gen_enc(rng: &mut Rng, count: u64, _tier: &str) -> Vec<String> {
     for _ in 0..count {
         out.push(format!("enc {}", packet_text(&some_packet(rng))));
     }
+    // the packets without any variable part
+    out.push("enc oack -".to_string());
+    out.push("enc ack 0".to_string());
+    out.push("enc data 0 -".to_string());
+    out.push("enc rrq - - -".to_string());
+    out.push("enc wrq - - -".to_string());
     // exhaustive 16-bit sweeps of the enum conversions
     for v in 0u32..65536 {
         out.push(format!("opc {v}"));
